@@ -197,7 +197,7 @@ SEQ_ATTR = {'raise': 'event', 'send': 'event', 'log': 'expr', 'assign': 'locatio
 def seq_facts(elems, e2d, n, trans):
     """Control-flow successor tables of the executable content of a document that follows the SEQ convention: every
     executable element carries a number q<nn>/Q<nn> (unique, 1..99) in its identifying attribute.  kind: 1 plain element,
-    2 condition of <if>/<elseif>.  next[n]: number executed after plain element n (0 = end of the handler);
+    2 condition of <if>/<elseif>, 3 <foreach> (true: first element of the body or the loop itself, false: after the loop).  next[n]: number executed after plain element n (0 = end of the handler);
     true[n]/false[n]: where a condition goes.  None if the document does not follow the convention."""
     import re as _re
     kind, nxt, tru, fal, entry = {}, {}, {}, {}, {}
@@ -239,6 +239,12 @@ def seq_facts(elems, e2d, n, trans):
                     fal[cn] = ft
                     ft = cn
                 cur = ft
+            elif t == 'foreach':
+                k = num(el, 'array')
+                kind[k] = 3
+                fal[k] = cur                                   # after the loop
+                tru[k] = block([c for c in el if isinstance(c.tag, str)], k)   # the body flows back to the loop head
+                cur = k
             elif t in SEQ_ATTR:
                 k = num(el, SEQ_ATTR[t])
                 kind[k] = 1
